@@ -42,15 +42,23 @@ class BidsFileGroup:
         self.sidecar_dict = self._make_sidecar_dict()
         self.sidecar_dir_dict = self._make_sidecar_dir_dict()
 
+        sidecar_chains = {}
         for bids_obj in self.sidecar_dict.values():
             x = self.get_sidecars_from_path(bids_obj)
+            sidecar_chains[bids_obj.file_path] = x
             bids_obj.set_contents(content_info=x)
 
         self.datafile_dict = self._make_datafile_dict()
         for bids_obj in self.datafile_dict.values():
             sidecar_list = self.get_sidecars_from_path(bids_obj)
             if sidecar_list:
-                bids_obj.sidecar = self.sidecar_dict[sidecar_list[-1]]
+                merged_sidecar = self.sidecar_dict[sidecar_list[-1]]
+                if sidecar_chains[merged_sidecar.file_path] != sidecar_list:
+                    # A shallower sidecar can apply to the data file without applying to the deepest sidecar file
+                    # (its entities need not occur in that sidecar's name): merge the data file's own chain.
+                    merged_sidecar = BidsSidecarFile(sidecar_list[-1])
+                    merged_sidecar.set_contents(content_info=sidecar_list)
+                bids_obj.sidecar = merged_sidecar
 
     def get_sidecars_from_path(self, obj):
         """ Return applicable sidecars for the object.
